@@ -54,7 +54,26 @@ pub const FRAGS: &[Frag] = &[
     f("private_vars_leading_underscore", "    uint256 private v$;\n"),
     f("private_func_leading_underscore", "    function h$() internal {}\n"),
     f("quiet_view", "    function _q$() internal pure returns (uint256) {\n        return 1;\n    }\n"),
+    // expressions broken over several lines: nested matches begin on different lines
+    f("multiline_math", "    function ml$(uint256 a, uint256 b, uint256 c) public pure returns (uint256) {\n        return (a * b) /\n            (c + a) -\n            (b /\n                2);\n    }\n"),
+    f("multiline_require", "    function mq$(uint256 a, uint256 b) public pure {\n        require(\n            a > 0 &&\n                b >= a,\n            \"both amounts must be positive and ordered, otherwise revert\"\n        );\n    }\n"),
+    f("multiline_call", "    function mk$(address t, address to, uint256 a) public {\n        IERC20(t)\n            .transfer(\n                to,\n                a * 4\n            );\n    }\n"),
 ];
+
+/// A text with several hundred matches of single patterns (more than any per-file cap a change
+/// might introduce).
+pub fn many_matches_text(n: usize) -> String {
+    let mut s = String::from("pragma solidity 0.8.16;\n\ncontract Many {\n    uint256 x;\n    function f(uint256 i, uint256 a) public {\n");
+    for k in 0..n {
+        match k % 3 {
+            0 => s.push_str("        i++;\n"),
+            1 => s.push_str("        x = a + i;\n"),
+            _ => s.push_str("        x = a * 2;\n"),
+        }
+    }
+    s.push_str("    }\n}\n");
+    s
+}
 
 pub const PRAGMAS: &[&str] = &[
     "0.7.6", "0.8.3", "^0.8.16", "0.8.16", "0.8.4", "^0.8.4", "0.6.12", "^0.7.0",
